@@ -57,8 +57,8 @@ Proof.
   - rewrite IH, in_add_sname. cbn [In]. split; intros H; [destruct H as [[H| ->]|H]|destruct H as [H|[<-|H]]]; auto.
 Qed.
 
-Lemma in_apply_edit y strs add rm :
-  In y (apply_edit strs (CkEdit add rm)) <-> (In y strs /\ ~ In y rm) \/ In y add.
+Lemma in_apply_edit y strs add rm l :
+  In y (apply_edit strs (CkEditL add rm l)) <-> (In y strs /\ ~ In y rm) \/ In y add.
 Proof.
   cbn [apply_edit]. rewrite in_fold_add, filter_In, negb_true_iff, mem_sname_not_in. reflexivity.
 Qed.
@@ -154,17 +154,17 @@ Proof.
 Qed.
 
 (* the synced manifest with one more edit *)
-Lemma rec_mani_append s s' mf add rm E E' :
-  wf s' -> upd_rel s s' NMani (Some (mkFile (f_data mf ++ [CkEdit add rm]) (S (length (f_data mf))))) ->
+Lemma rec_mani_append s s' mf add rm l E E' :
+  wf s' -> upd_rel s s' NMani (Some (mkFile (f_data mf ++ [CkEditL add rm l]) (S (length (f_data mf))))) ->
   mf = mani_file s -> Good s E ->
   (forall x, In x add -> lookup (NSst x) s <> None) ->
   (forall e, In e E' <->
-     (exists x, In x (apply_edit (mani_strs s) (CkEdit add rm)) /\ In e x) \/
+     (exists x, In x (apply_edit (mani_strs s) (CkEditL add rm l)) /\ In e x) \/
      (exists n f, lookup (NLog n) s = Some f /\ In e (file_log_entries f))) ->
   Good s' E'.
 Proof.
   intros Hw Hu Hmf [Hst (_ & A & B & C)] Hadd HE.
-  assert (Hstrs : mani_strs s' = apply_edit (mani_strs s) (CkEdit add rm)).
+  assert (Hstrs : mani_strs s' = apply_edit (mani_strs s) (CkEditL add rm l)).
   { rewrite (mani_strs_lookup s' _ (upd_rel_same _ _ _ _ Hu eq_refl)). cbn [f_data].
     rewrite strs_of_snoc. unfold mani_strs. now rewrite mani_edits_file, <- Hmf. }
   split; [|split; [exact Hw|split; [|split]]].
@@ -180,13 +180,13 @@ Qed.
 
 (* ------------------------------------------------------------------ blocks of calls *)
 (* create, fill and seal a temporary SST under an irrelevant name *)
-Lemma tmp_block T c s E P : relevant T = false -> Good s E ->
+Lemma tmp_block_c T c s X E P : relevant T = false -> Good s X -> covers E P X ->
   walk (must [CCreate T; CWrite T c; CSync T]) s E P
-       (fun s' => Good s' E /\ lookup T s' = Some (mkFile [c] 1) /\ (forall n, n <> T -> lookup n s' = lookup n s)).
+       (fun s' => Good s' X /\ lookup T s' = Some (mkFile [c] 1) /\ (forall n, n <> T -> lookup n s' = lookup n s)).
 Proof.
-  intros HT Hg.
+  intros HT Hg Hcv.
   assert (Hirr : forall n, In n [T] -> relevant n = false) by (intros n [<-|[]]; exact HT).
-  eapply walk_conseq; [|apply walk_irrelevant; [repeat constructor; exact Hirr|exact Hg]].
+  eapply walk_conseq; [|apply (walk_irrelevant_c _ s X E P); [repeat constructor; exact Hirr|exact Hg|exact Hcv]].
   cbn beta. intros s' (Hr & Hg' & Hsame). cbn [must map] in Hr. rewrite run_must_cons in Hr.
   destruct (exec (CCreate T) s) as [s1|] eqn:E1; [|discriminate].
   rewrite run_must_cons in Hr. destruct (exec (CWrite T c) s1) as [s2|] eqn:E2; [|discriminate].
@@ -201,16 +201,21 @@ Proof.
   - intros n Hn. rewrite !lookup_set, name_eqb_neq by exact Hn. reflexivity.
 Qed.
 
+Lemma tmp_block T c s E P : relevant T = false -> Good s E ->
+  walk (must [CCreate T; CWrite T c; CSync T]) s E P
+       (fun s' => Good s' E /\ lookup T s' = Some (mkFile [c] 1) /\ (forall n, n <> T -> lookup n s' = lookup n s)).
+Proof. intros HT Hg. apply tmp_block_c; [exact HT|exact Hg|apply covers_refl]. Qed.
+
 (* Manifest::apply of one edit *)
-Lemma mani_block add rm s E E' P :
+Lemma mani_block add rm l s E E' P :
   Good s E ->
   (forall x, In x add -> lookup (NSst x) s <> None) ->
   (forall e, In e E' <->
-     (exists x, In x (apply_edit (mani_strs s) (CkEdit add rm)) /\ In e x) \/
+     (exists x, In x (apply_edit (mani_strs s) (CkEditL add rm l)) /\ In e x) \/
      (exists n f, lookup (NLog n) s = Some f /\ In e (file_log_entries f))) ->
   (E' = E \/ exists q, P = Some q /\ E' = E ++ q) ->
-  walk (must (mani_apply (CkEdit add rm))) s E P
-       (fun s' => Good s' E' /\ mani_strs s' = apply_edit (mani_strs s) (CkEdit add rm) /\
+  walk (must (mani_apply (CkEditL add rm l))) s E P
+       (fun s' => Good s' E' /\ mani_strs s' = apply_edit (mani_strs s) (CkEditL add rm l) /\
                   lookup NMani s' <> None /\ (forall n, n <> NMani -> lookup n s' = lookup n s)).
 Proof.
   intros Hg Hadd HE HEE. unfold mani_apply. cbn [must map].
@@ -240,10 +245,10 @@ Proof.
   apply walk_must_cons; [now apply good_safe|]. intros s2 E2.
   apply exec_write_inv in E2. destruct E2 as (f2 & L2 & ->). rewrite Hm1 in L2. inversion L2; subst f2. clear L2.
   set (mf := mani_file s) in *.
-  set (S' := set NMani (mkFile (f_data mf ++ [CkEdit add rm]) (S (length (f_data mf)))) s1).
+  set (S' := set NMani (mkFile (f_data mf ++ [CkEditL add rm l]) (S (length (f_data mf)))) s1).
   assert (HwS : wf S') by (apply wf_set; exact Hw1).
   assert (HgS : Good S' E').
-  { apply (rec_mani_append s1 S' mf add rm E E'); [exact HwS| | |exact Hg1| |].
+  { apply (rec_mani_append s1 S' mf add rm l E E'); [exact HwS| | |exact Hg1| |].
     - intros n _. unfold S'. now rewrite lookup_set.
     - unfold mani_file. now rewrite Hm1.
     - intros x Hx. rewrite Ho1 by discriminate. now apply Hadd.
@@ -252,7 +257,7 @@ Proof.
       + now rewrite Ho1 by discriminate.
       + now rewrite Ho1 in H1 by discriminate. }
   apply walk_must_cons.
-  { apply (pending_safe NMani s1 mf (CkEdit add rm) E E' P eq_refl Hg1 Hm1); [apply HgS|exact HEE]. }
+  { apply (pending_safe NMani s1 mf (CkEditL add rm l) E E' P eq_refl Hg1 Hm1); [apply HgS|exact HEE]. }
   intros s3 E3. apply exec_sync_inv in E3. destruct E3 as (f3 & L3 & ->).
   rewrite lookup_set, name_eqb_refl in L3. inversion L3; subst f3. clear L3. cbn [f_data].
   match goal with |- walk [] ?st E P _ => set (s3 := st) end.
@@ -266,7 +271,7 @@ Proof.
     intros s' Hc. right. exists q. split; [reflexivity|].
     destruct (good_safe s3 (E ++ q) None Hg3 s' Hc) as [H|(? & H & _)]; [exact H|discriminate].
   - split; [exact Hg3|]. split; [|split].
-    + rewrite (mani_strs_lookup s3 (mkFile (f_data mf ++ [CkEdit add rm]) (S (length (f_data mf))))).
+    + rewrite (mani_strs_lookup s3 (mkFile (f_data mf ++ [CkEditL add rm l]) (S (length (f_data mf))))).
       * cbn [f_data]. rewrite strs_of_snoc. unfold mani_strs. now rewrite mani_edits_file.
       * rewrite Hsame. unfold S'. now rewrite lookup_set, name_eqb_refl.
     + rewrite Hsame. unfold S'. rewrite lookup_set, name_eqb_refl. discriminate.
@@ -293,18 +298,18 @@ Proof.
     rewrite run_must_cons. cbn [exec]. rewrite lookup_set, name_eqb_refl. eexists. reflexivity.
 Qed.
 
-Lemma mani_block_ok add rm s E E' P :
+Lemma mani_block_ok add rm l s E E' P :
   Good s E ->
   (forall x, In x add -> lookup (NSst x) s <> None) ->
   (forall e, In e E' <->
-     (exists x, In x (apply_edit (mani_strs s) (CkEdit add rm)) /\ In e x) \/
+     (exists x, In x (apply_edit (mani_strs s) (CkEditL add rm l)) /\ In e x) \/
      (exists n f, lookup (NLog n) s = Some f /\ In e (file_log_entries f))) ->
   (E' = E \/ exists q, P = Some q /\ E' = E ++ q) ->
-  walk_ok (must (mani_apply (CkEdit add rm))) s E P
-       (fun s' => Good s' E' /\ mani_strs s' = apply_edit (mani_strs s) (CkEdit add rm) /\
+  walk_ok (must (mani_apply (CkEditL add rm l))) s E P
+       (fun s' => Good s' E' /\ mani_strs s' = apply_edit (mani_strs s) (CkEditL add rm l) /\
                   lookup NMani s' <> None /\ (forall n, n <> NMani -> lookup n s' = lookup n s)).
 Proof.
-  intros Hg Hadd HE HEE. destruct (mani_apply_runs (CkEdit add rm) s) as (s' & R).
+  intros Hg Hadd HE HEE. destruct (mani_apply_runs (CkEditL add rm l) s) as (s' & R).
   eapply walk_upgrade; [now apply mani_block|exact R].
 Qed.
 
@@ -325,22 +330,23 @@ Proof. intros H1 H2. cbn. rewrite H1, H2. eauto. Qed.
 
 (* the manifest edit inside a longer program, whatever the Rust does with its errors (the three
    calls cannot fail for file-system reasons) *)
-Lemma mani_block_defer add rm rest s E E' P (Q : fs -> Prop) :
+Lemma mani_block_defer add rm l rest s X X' E P (Q : fs -> Prop) :
   cleanup_like rest ->
-  Good s E ->
+  Good s X ->
   (forall x, In x add -> lookup (NSst x) s <> None) ->
-  (forall e, In e E' <->
-     (exists x, In x (apply_edit (mani_strs s) (CkEdit add rm)) /\ In e x) \/
+  (forall e, In e X' <->
+     (exists x, In x (apply_edit (mani_strs s) (CkEditL add rm l)) /\ In e x) \/
      (exists n f, lookup (NLog n) s = Some f /\ In e (file_log_entries f))) ->
-  (E' = E \/ exists q, P = Some q /\ E' = E ++ q) ->
-  (forall s', Good s' E' -> mani_strs s' = apply_edit (mani_strs s) (CkEdit add rm) ->
+  covers E P X -> covers E P X' ->
+  (forall s', Good s' X' -> mani_strs s' = apply_edit (mani_strs s) (CkEditL add rm l) ->
               (forall n, n <> NMani -> lookup n s' = lookup n s) -> walk rest s' E P Q) ->
-  walk ((COpenAppend NMani, Defer 2) :: (CWrite NMani (CkEdit add rm), Defer 1) :: (CSync NMani, Defer 0) :: rest) s E P Q.
+  walk ((COpenAppend NMani, Defer 2) :: (CWrite NMani (CkEditL add rm l), Defer 1) :: (CSync NMani, Defer 0) :: rest) s E P Q.
 Proof.
-  intros Hcl Hg Hadd HE HEE Hrest.
-  apply walk_defer_cons; [now apply good_safe|cbn [exec]; destruct (lookup NMani s); eauto| |].
-  2:{ apply dsafe_skip; [now apply good_safe|]. apply dsafe_skip; [now apply good_safe|].
-      apply dsafe_cleanup; [exact Hcl|apply Hg|now apply good_safe]. }
+  intros Hcl Hg Hadd HE HcX HcX' Hrest.
+  pose proof (good_safe_c s X E P Hg HcX) as HS0.
+  apply walk_defer_cons; [exact HS0|cbn [exec]; destruct (lookup NMani s); eauto| |].
+  2:{ apply dsafe_skip; [exact HS0|]. apply dsafe_skip; [exact HS0|].
+      apply dsafe_cleanup; [exact Hcl|apply Hg|exact HS0]. }
   intros s1 E1.
   assert (H1 : wf s1 /\ lookup NMani s1 = Some (mani_file s) /\ (forall n, n <> NMani -> lookup n s1 = lookup n s)).
   { apply exec_openappend_inv in E1. destruct E1 as [[Hne ->]|[Hn ->]].
@@ -351,7 +357,7 @@ Proof.
   destruct H1 as (Hw1 & Hm1 & Ho1).
   assert (Hstrs1 : mani_strs s1 = mani_strs s).
   { rewrite (mani_strs_lookup s1 _ Hm1). unfold mani_strs. now rewrite mani_edits_file. }
-  assert (Hg1 : Good s1 E).
+  assert (Hg1 : Good s1 X).
   { destruct Hg as [Hst (_ & A & B & C)].
     split; [|split; [exact Hw1|split; [|split]]].
     - intros n f Hn. destruct (name_eqb n NMani) eqn:En.
@@ -363,15 +369,16 @@ Proof.
     - intros e. rewrite (C e), Hstrs1. split; (intros [H|(n & f & H1 & H2)]; [now left|right]); exists n, f; (split; [|exact H2]).
       + now rewrite Ho1 by discriminate.
       + now rewrite Ho1 in H1 by discriminate. }
-  apply walk_defer_cons; [now apply good_safe|cbn [exec]; rewrite Hm1; eauto| |].
-  2:{ apply dsafe_skip; [now apply good_safe|]. apply dsafe_cleanup; [exact Hcl|exact Hw1|now apply good_safe]. }
+  pose proof (good_safe_c s1 X E P Hg1 HcX) as HS1.
+  apply walk_defer_cons; [exact HS1|cbn [exec]; rewrite Hm1; eauto| |].
+  2:{ apply dsafe_skip; [exact HS1|]. apply dsafe_cleanup; [exact Hcl|exact Hw1|exact HS1]. }
   intros s2 E2.
   apply exec_write_inv in E2. destruct E2 as (f2 & L2 & ->). rewrite Hm1 in L2. inversion L2; subst f2. clear L2.
   set (mf := mani_file s) in *.
-  set (S' := set NMani (mkFile (f_data mf ++ [CkEdit add rm]) (S (length (f_data mf)))) s1).
+  set (S' := set NMani (mkFile (f_data mf ++ [CkEditL add rm l]) (S (length (f_data mf)))) s1).
   assert (HwS : wf S') by (apply wf_set; exact Hw1).
-  assert (HgS : Good S' E').
-  { apply (rec_mani_append s1 S' mf add rm E E'); [exact HwS| | |exact Hg1| |].
+  assert (HgS : Good S' X').
+  { apply (rec_mani_append s1 S' mf add rm l X X'); [exact HwS| | |exact Hg1| |].
     - intros n _. unfold S'. now rewrite lookup_set.
     - unfold mani_file. now rewrite Hm1.
     - intros x Hx. rewrite Ho1 by discriminate. now apply Hadd.
@@ -379,8 +386,8 @@ Proof.
       split; (intros [H|(n & f & H1 & H2)]; [now left|right]); exists n, f; (split; [|exact H2]).
       + now rewrite Ho1 by discriminate.
       + now rewrite Ho1 in H1 by discriminate. }
-  assert (Hpend : Safe (set NMani (mkFile (f_data mf ++ [CkEdit add rm]) (f_dur mf)) s1) E P)
-    by (apply (pending_safe NMani s1 mf (CkEdit add rm) E E' P eq_refl Hg1 Hm1); [apply HgS|exact HEE]).
+  assert (Hpend : Safe (set NMani (mkFile (f_data mf ++ [CkEditL add rm l]) (f_dur mf)) s1) E P)
+    by (apply (pending_safe_c NMani s1 mf (CkEditL add rm l) X X' E P eq_refl Hg1 Hm1); [apply HgS|exact HcX|exact HcX']).
   apply walk_defer_cons; [exact Hpend|cbn [exec]; rewrite lookup_set, name_eqb_refl; eauto| |].
   2:{ apply dsafe_cleanup; [exact Hcl|apply wf_set; exact Hw1|exact Hpend]. }
   intros s3 E3. apply exec_sync_inv in E3. destruct E3 as (f3 & L3 & ->).
@@ -390,9 +397,9 @@ Proof.
   assert (Hsame : forall n, lookup n s3 = lookup n S').
   { intros n. unfold s3, S'. rewrite !lookup_set. destruct (name_eqb n NMani); [|reflexivity].
     rewrite app_length. cbn. do 2 f_equal. lia. }
-  assert (Hg3 : Good s3 E') by (eapply good_ext; [exact Hw3| |exact HgS]; intros n _; apply Hsame).
+  assert (Hg3 : Good s3 X') by (eapply good_ext; [exact Hw3| |exact HgS]; intros n _; apply Hsame).
   apply Hrest; [exact Hg3| |].
-  - rewrite (mani_strs_lookup s3 (mkFile (f_data mf ++ [CkEdit add rm]) (S (length (f_data mf))))).
+  - rewrite (mani_strs_lookup s3 (mkFile (f_data mf ++ [CkEditL add rm l]) (S (length (f_data mf))))).
     + cbn [f_data]. rewrite strs_of_snoc. unfold mani_strs. now rewrite mani_edits_file.
     + rewrite Hsame. unfold S'. now rewrite lookup_set, name_eqb_refl.
   - intros n Hn. rewrite Hsame. unfold S'. rewrite lookup_set, name_eqb_neq by exact Hn. now apply Ho1.
